@@ -794,6 +794,30 @@ Reg const r_loop{
     [](Ints const &c) { loop_case(c.at(0), c.at(1), c.at(2)); },
     [](Ints const &c) { return "loop: " + std::to_string(mod(c.at(0), 6)) + " successes (sequence#" + std::to_string(c.at(1)) + " base 3) then failure e" + std::to_string(mod(c.at(2), 3)); }};
 
+// a long run: the number of successes is not bounded by anything but the caller's patience (a parser
+// repetition over a long input is such a loop), so 10^6 successes followed by the failure return
+// normally with every success handed to the body
+void loop_long_case(i64 n_)
+{
+  static long const sizes[] = {1000, 100000, 1000000};
+  long const n = sizes[mod(n_, 3)];
+  count(true);
+  long pos = 0, fed = 0, sum = 0;
+  E const r = fcppt::either::loop(
+      [&]() -> ED {
+        if (pos < n) return ED{D(static_cast<int>(pos++ % 3))};
+        ++pos;
+        return ED{E(1)};
+      },
+      [&](D x) { ++fed; sum += x.idx(); });
+  chk(r.idx() == 1 && pos == n + 1 && fed == n, "either::loop|long-run", [&] { return "loop over " + std::to_string(n) + " successes: next called " + std::to_string(pos) + " times, body " + std::to_string(fed) + " times, result " + vname<E>(r.idx()); });
+}
+Reg const r_loop_long{
+    C04_SEC("either_loop_long"), Kind::exhaustive, "every case (10^3, 10^5, 10^6 successes before the failure)",
+    [] { for (i64 n = 0; n < 3; ++n) { cur1(n); loop_long_case(n); } },
+    [](Ints const &c) { loop_long_case(c.at(0)); },
+    [](Ints const &c) { static char const *const t[] = {"10^3", "10^5", "10^6"}; return std::string("either::loop over ") + t[mod(c.at(0), 3)] + " successes, then a failure"; }};
+
 // ------------------------------------------------------------------------------------------------
 // try_call<ExcA>: return / throw ExcA / throw a class derived from ExcA / throw an unrelated ExcB
 struct ExcA
